@@ -294,6 +294,19 @@ func checkMapRange(c *Ctx, fn *ssa.Function, rg *ssa.Range, cons string) {
 					continue
 				}
 				for _, r := range *ld.Referrers() {
+					// sort.Slice(x, less) takes x as interface{}: look through the boxing
+					if mi, ok := r.(*ssa.MakeInterface); ok {
+						boxedSort := false
+						for _, r2 := range *mi.Referrers() {
+							if call, ok := r2.(*ssa.Call); ok && isSortCall(call) {
+								sorts = append(sorts, r2)
+								boxedSort = true
+							}
+						}
+						if boxedSort {
+							continue
+						}
+					}
 					if call, ok := r.(*ssa.Call); ok && isSortCall(call) {
 						sorts = append(sorts, r)
 					} else {
